@@ -12,6 +12,9 @@ import Vegeta.Proofs.HTTPRender
 import Vegeta.Proofs.JSONTargets
 import Vegeta.Proofs.JSONRoundTrip
 import Vegeta.Proofs.TargeterLaws
+import Vegeta.Proofs.HTTPFileSystem
+import Vegeta.Proofs.AttackTargets
+import Vegeta.Proofs.JSONTargetsRef
 import Vegeta.Extracted.Facts
 namespace Vegeta.Props.C14
 open Vegeta.Go Vegeta.Model
@@ -373,6 +376,308 @@ theorem read_all_targets_described (cfg : Cfg) (h0 : Heap) (d : Doc)
     exact hne (List.length_eq_zero_iff.mp (by simpa using hlen.symm))
   exact ⟨ts', by rw [hra]; simp [hne'], hlen⟩
 
+/-! ## body files are read at decode time -/
+
+open Vegeta.Proofs.HTTPFileSystem in
+theorem aux_legal_anyfs {v : Bytes → Bool} {fs : Bytes → Option Bytes} {b : Block} (h : b.Legal v fs) :
+    b.Legal v (fun _ => some []) := by
+  obtain ⟨a1, a2, a3, a4, a5, a6, a7, a8, a9⟩ := h
+  exact ⟨a1, a2, a3, a4, a5, a6, a7, a8, fun bl hbl => ⟨(a9 bl hbl).1, (a9 bl hbl).2.1, (a9 bl hbl).2.2.1, rfl⟩⟩
+
+open Vegeta.Proofs.HTTPFileSystem in
+theorem aux_legalFrom_all (cfg : Cfg) (fss : Nat → FS) : ∀ (bs : List Block) (i : Nat), LegalFrom cfg fss i bs →
+    ∀ b ∈ bs, b.Legal cfg.validURI (fun _ => some []) := by
+  intro bs
+  induction bs with
+  | nil => intro i _ b hb; cases hb
+  | cons x r ih =>
+    intro i hl b hb
+    simp only [List.mem_cons] at hb
+    rcases hb with rfl | hb
+    · exact aux_legal_anyfs hl.1
+    · exact ih (i + 1) hl.2 b hb
+
+open Vegeta.Proofs.HTTPFileSystem in
+/-- **The http targeter is a function of the targets file and of the file system state at each
+call**: let call number `j` see the file system `fss j` (body files may be rewritten, created or
+removed between calls).  For every document of the grammar whose block `j` names a body file that
+exists when call `j` happens, call `j` returns block `j`'s target with the payload the file has
+AT THAT CALL (`describe … (fss j)`), earlier targets keep theirs (`earlier_targets_stable`), and
+the calls after the last block report `ErrNoTargets`.  Nothing is remembered from one call to the
+next (a cache keyed by path would break this; seed c14h). -/
+theorem http_parse_render_fs (cfg : Cfg) (h0 : Heap) (d : Doc) (k : Nat) (fss : Nat → FS)
+    (hl : LegalFrom cfg fss 0 d.blocks) (htr : ∀ f ∈ d.trail, f.Legal) (hsep : Separated d.blocks)
+    (wf : WfDefaults cfg h0) :
+    ∃ rs hEnd,
+      (callsHF cfg fss 0 (d.blocks.length + k) { ps := PS.init (render d), heap := h0 }).1 =
+        rs ++ List.replicate k (.error eNoTargets, hEnd) ∧
+      DescribedFrom cfg h0 fss 0 rs d.blocks := by
+  let cfgA : Cfg := withFS cfg (fun _ => some [])
+  have hdl : d.Legal cfgA.validURI cfgA.fs := ⟨aux_legalFrom_all cfg fss d.blocks 0 hl, htr, hsep⟩
+  obtain ⟨d', hb, hl', hend, hr⟩ := render_normalize cfgA d hdl
+  obtain ⟨ps', c1, _⟩ := callsF_refines cfg fss (d.blocks.length + k) 0 { ps := PS.init (render d), heap := h0 }
+  have hlines : srcLines (render d) = docLines (d'.trail.map fun f => dropCR f.line) (toABlocksF cfg fss 0 d.blocks) := by
+    rw [← hr, srcLines_render cfgA d' hl' hend, ← doc_lines_map cfgA d'.blocks, hb, doc_lines_mapF cfg fss _ d.blocks 0]
+  simp only [eff_init, hlines] at c1
+  have htrail : ∀ l ∈ (d'.trail.map fun f => dropCR f.line), IsFiller l := by
+    intro l hl''
+    simp only [List.mem_map] at hl''
+    obtain ⟨f, hf, rfl⟩ := hl''
+    exact filler_class f (hl'.2.1 f hf)
+  have hdoc := callsLF_doc cfg fss _ htrail (toABlocksF cfg fss 0 d.blocks) 0 (okFrom_of_legal cfg fss d.blocks 0 hl)
+    (asep_of_specF cfg fss d.blocks 0 hl hsep) h0 k
+  rw [toABlocksF_length] at hdoc
+  refine ⟨_, _, by rw [c1]; exact hdoc, expect_matchesF cfg h0 fss d.blocks 0 h0 hl wf (fun _ => rfl)⟩
+
+/-- the file `POST http://r/0` `@p` / `GET http://r/1` / `POST http://r/2` `@p` with `p` holding `A`
+at the first call and `B` afterwards: bodies `A`, the default body, `B` -/
+def rwSrc : Bytes :=
+  [80, 79, 83, 84, 32, 104, 116, 116, 112, 58, 47, 47, 114, 47, 48, 10, 64, 112, 10,
+   71, 69, 84, 32, 104, 116, 116, 112, 58, 47, 47, 114, 47, 49, 10,
+   80, 79, 83, 84, 32, 104, 116, 116, 112, 58, 47, 47, 114, 47, 50, 10, 64, 112, 10]
+
+open Vegeta.Proofs.HTTPFileSystem in
+example : ((callsHF { trapCfg with body := [100] }
+      (fun i => fun p => if p = [112] then (if i = 0 then some [65] else some [66]) else none) 0 4
+      { ps := PS.init rwSrc, heap := [] }).1.map fun r =>
+      match r.1 with
+      | .ok t => some t.body
+      | _ => none) = [some [65], some [100], some [66], none] := by decide
+
+open Vegeta.Proofs.HTTPFileSystem in
+/-- non-vacuity of `LegalFrom` with a file system that changes: one block whose body file `p` exists at call 0 -/
+example : LegalFrom trapCfg (fun i => fun p => if p = [112] ∧ i = 0 then some [65] else none) 0
+    [{ lead := [], pre := [], method := [80], url := [104, 116, 116, 112, 58, 47, 47, 114, 47], post := [], items := [],
+       body := some { path := [112], pre := [], post := [] } }] := by
+  refine ⟨⟨(by intro f hf; cases hf), aux_isPad_nil, aux_isPad_nil, (by decide), (by decide),
+    aux_edgePlain_of 104 47 rfl rfl (by decide) (by decide) (by decide), rfl, (by intro it hit; cases hit), ?_⟩, trivial⟩
+  intro bl hbl
+  cases hbl
+  exact ⟨aux_edgePlain_of 112 112 rfl rfl (by decide) (by decide) (by decide), aux_isPad_nil, aux_isPad_nil, by decide⟩
+
+/-! ## no shared backing arrays -/
+
+/-- **Targets never share a backing array with the defaults or with each other** (the statement
+seeds c14a and c15i broke), in the model where a header value slice is a reference
+`(array, len, cap)` and `append` writes in place when capacity allows — for every input, every
+default header map and any number of calls: every value slice of a returned target lies in an
+array that did not exist before the first call (so in none of the default map's arrays, whatever
+their spare capacity), different keys of one target lie in different arrays, and the arrays of
+targets returned by different calls are different. -/
+theorem no_shared_backing (cfg : Cfg) (st : St) (n : Nat) :
+    (∀ r ∈ (callsH cfg n st).1, ∀ t, r.1 = .ok t → ∀ k s, hlookup t.header k = some s → 0 < s.cap →
+      st.heap.length ≤ s.arr ∧ s.arr < r.2.length) ∧
+    List.Pairwise (fun (r1 r2 : Outcome Target × Heap) => ∀ t1 t2, r1.1 = .ok t1 → r2.1 = .ok t2 →
+      ∀ k1 s1 k2 s2, hlookup t1.header k1 = some s1 → hlookup t2.header k2 = some s2 → 0 < s1.cap → 0 < s2.cap →
+        s1.arr ≠ s2.arr) (callsH cfg n st).1 := by
+  obtain ⟨ps', c1, _⟩ := calls_refines cfg n st
+  rw [c1]
+  exact callsL_arrays cfg n (eff st.ps) st.heap
+
+/-- … and within one target -/
+theorem no_shared_backing_within (cfg : Cfg) (st : St) (t : Target) (ht : (call cfg st).1 = .ok t) :
+    ∀ k1 s1 k2 s2, hlookup t.header k1 = some s1 → hlookup t.header k2 = some s2 → 0 < s1.cap → 0 < s2.cap →
+      s1.arr = s2.arr → k1 = k2 := by
+  obtain ⟨ps', c1, _⟩ := call_refines cfg st
+  rw [c1] at ht
+  exact (callL_arrays cfg (eff st.ps) st.heap t ht).2
+
+/-- the alias witness on the repaired model: the default `X` lives in array 0 (capacity 4); each call
+copies it (arrays 1, 3) and the append of the own value reallocates (arrays 2, 4) -/
+example : ((callsH aliasCfg 2 { ps := PS.init aliasSrc, heap := aliasHeap }).1.map fun r =>
+      match r.1 with
+      | .ok t => (hlookup t.header [88]).map (·.arr)
+      | _ => none) = [some 2, some 4] := by decide
+
+open Vegeta.Model.JSONTargetsRef Vegeta.Proofs.JSONTargetsRef in
+/-- **The JSON targeter's merge never shares a backing array either** (the statement seed c15i
+broke), in the reference model of `append` (`Model/JSONTargetsRef.lean`: `append(s, vs...)`
+returns `s` when there is nothing to add, writes in place when `len + n ≤ cap`, else copies):
+for every heap, every default header map `dflt` (slices of any capacity) and every decoded
+record `own`, the merged header map
+* shows, key by key, exactly what the by-value model `JSONTargets.vmerge` computes
+  (defaults first, then the own values), so the by-value model is a sound abstraction;
+* consists of nil slices and slices in arrays allocated by this merge (index ≥ the heap size
+  before it): none of them is an array of the defaults or of an earlier target;
+* has different keys in different arrays; and nothing that existed before is written
+  (`Extends`): the defaults and all earlier targets keep their values. -/
+theorem json_no_shared_backing (h : Heap) (dflt : HMap) (own : JSONTargets.VMap) :
+    let r := finishHeader h dflt own
+    let vm := JSONTargets.vmerge (JSONTargets.vmerge [] (dflt.map fun (k, s) => (k, view h s))) own
+    Extends h r.2 ∧
+    (∀ k, (hlookup r.1 k).map (view r.2) = JSONTargets.vlookup vm k) ∧
+    (∀ k s, hlookup r.1 k = some s → 0 < s.cap → h.length ≤ s.arr ∧ s.arr < r.2.length) ∧
+    (∀ k1 s1 k2 s2, hlookup r.1 k1 = some s1 → hlookup r.1 k2 = some s2 → 0 < s1.cap → 0 < s2.cap →
+      s1.arr = s2.arr → k1 = k2) := by
+  have i1 := mergeRef_inv h (dflt.map fun (k, s) => (k, view h s)) [] h [] (minv_empty h)
+  have i2 := mergeRef_inv h own _ _ _ i1
+  refine ⟨i2.ext, ?_, fun k s hk hc => ⟨i2.fresh k s hk hc, arr_lt_of_ok (i2.ok k s hk) hc⟩, i2.distinct⟩
+  intro k
+  have hk := i2.keys k
+  have hv := i2.vals k
+  simp only [finishHeader] at hk hv ⊢
+  cases hl : hlookup (mergeRef (mergeRef [] h (dflt.map fun x => (x.1, view h x.2))).1
+      (mergeRef [] h (dflt.map fun x => (x.1, view h x.2))).2 own).1 k with
+  | none =>
+    rw [hl] at hk
+    cases hvl : JSONTargets.vlookup (JSONTargets.vmerge (JSONTargets.vmerge [] (dflt.map fun x => (x.1, view h x.2))) own) k with
+    | none => rfl
+    | some x => rw [hvl] at hk; cases hk
+  | some s =>
+    rw [hl] at hk hv
+    cases hvl : JSONTargets.vlookup (JSONTargets.vmerge (JSONTargets.vmerge [] (dflt.map fun x => (x.1, view h x.2))) own) k with
+    | none => rw [hvl] at hk; cases hk
+    | some x => rw [hvl] at hv; simpa using hv
+
+open Vegeta.Model.JSONTargetsRef in
+/-- non-vacuity / the c15i scenario in the reference model: default `X: [a, b, c]` in a slice of
+capacity 4 (array 0) and a target with an own `X` value: the defaults are copied into array 1, the
+own value makes array 2; the defaults' array keeps its spare cell untouched -/
+example : (finishHeader [[[97], [98], [99], []]] [([88], { arr := 0, len := 3, cap := 4 })] [([88], [[49]])]) =
+    ([([88], { arr := 2, len := 4, cap := 6 })],
+     [[[97], [98], [99], []], [[97], [98], [99]], [[97], [98], [99], [49], [], []]]) := by decide
+
+/-! ## the attack command's target selection -/
+
+open Vegeta.Model.AttackTargets Vegeta.Proofs.AttackTargets Vegeta.Proofs.TargeterLaws in
+/-- **Eager and lazy selection hand out the same targets** (attack.go: `-lazy` uses the stream
+targeter itself, otherwise `NewStaticTargeter(ReadAllTargets(tr)...)`), for ANY stream targeter
+`step`: if its successive calls yield the targets `ts` (at least one) and then `ErrNoTargets`, then
+* lazily the first `|ts|` draws are `ts` in order and the next draw is `ErrNoTargets` (which
+  ends the attack);
+* eagerly the selection succeeds and draw number `j` (`j < m`, any `m ≤ 2^63`) is target `j mod |ts|`
+  — in particular the first `|ts|` draws are the same `ts` in the same order. -/
+theorem attack_selection_same_targets {S T : Type} (step : S → Outcome T × S) (fuel : Nat) (s s' : S) (ts : List T)
+    (hr : RunsTo step s ts eNoTargets s') (hne : ts ≠ []) (hf : ts.length < fuel) (hlen : ts.length ≤ two63) :
+    (∃ p, selectTargeter step fuel true s = .ok p ∧
+      draws step (ts.length + 1) p = ts.map Outcome.ok ++ [.error eNoTargets]) ∧
+    (∃ p, selectTargeter step fuel false s = .ok p ∧
+      (∀ m, m ≤ two63 → draws step m p = (List.range' 0 m).map (rot ts)) ∧
+      draws step ts.length p = ts.map Outcome.ok) := by
+  constructor
+  · exact ⟨.stream s, by simp [selectTargeter], draws_stream step s ts eNoTargets s' hr⟩
+  · have hsel := select_eager step fuel s s' ts eNoTargets hr hf
+    simp only [↓reduceIte, hne] at hsel
+    have hd : ∀ m, m ≤ two63 → draws step m (.static ts (-1)) = (List.range' 0 m).map (rot ts) := by
+      intro m hm
+      have := draws_static step ts hne m 0 (by omega)
+      simpa using this
+    refine ⟨.static ts (-1), hsel, hd, ?_⟩
+    rw [hd ts.length hlen, take_map_rot]
+
+open Vegeta.Model.AttackTargets Vegeta.Proofs.AttackTargets Vegeta.Proofs.TargeterLaws
+
+theorem aux_runsTo_of_calls' (cfg : Cfg) : ∀ (ts : List Target) (st : St) (e : Nat),
+    (calls cfg (ts.length + 1) st).1 = ts.map Outcome.ok ++ [.error e] →
+    RunsTo (call cfg) st ts e (calls cfg (ts.length + 1) st).2 := by
+  intro ts
+  induction ts with
+  | nil =>
+    intro st e h
+    simp only [List.length_nil, calls, List.map_nil, List.nil_append, List.cons.injEq, and_true] at h
+    exact RunsTo.stop (by simp only [List.length_nil, calls]; rw [← h])
+  | cons t r ih =>
+    intro st e h
+    simp only [List.length_cons, calls, List.map_cons, List.cons_append, List.cons.injEq] at h
+    have hr := ih (call cfg st).2 e h.2
+    exact RunsTo.more (s1 := (call cfg st).2) (by rw [← h.1]) (by simpa [calls] using hr)
+
+theorem aux_listRel_final {cfg : Cfg} {h0 hF : Heap} {rs : List (Outcome Target × Heap)} {bs : List Block}
+    (h : ListRel (fun r b => ∃ t, r.1 = .ok t ∧ Matches r.2 t (describe (defaultsOf cfg h0) cfg.body cfg.fs b)) rs bs)
+    (hst : ∀ r ∈ rs, ∀ t, r.1 = .ok t → ∀ k, (hlookup t.header k).map (view hF) = (hlookup t.header k).map (view r.2)) :
+    ∃ ts : List Target, rs.map (·.1) = ts.map Outcome.ok ∧
+      ListRel (fun t b => Matches hF t (describe (defaultsOf cfg h0) cfg.body cfg.fs b)) ts bs := by
+  induction h with
+  | nil => exact ⟨[], rfl, ListRel.nil⟩
+  | cons hab _ ih =>
+    rename_i a b as bs' _
+    obtain ⟨t, ht, hm⟩ := hab
+    obtain ⟨ts, h1, h2⟩ := ih (fun r hr => hst r (by simp [hr]))
+    refine ⟨t :: ts, by simp [ht, h1], ListRel.cons ?_ h2⟩
+    refine ⟨hm.1, hm.2.1, hm.2.2.1, fun k => ?_⟩
+    rw [hst a (by simp) t ht k]; exact hm.2.2.2 k
+
+theorem aux_listRel_len {α β : Type} {R : α → β → Prop} {as : List α} {bs : List β} (h : ListRel R as bs) : as.length = bs.length := by
+  induction h with
+  | nil => rfl
+  | cons _ _ ih => simp [ih]
+
+/-- **The attack command on an http targets file**: for every document of the grammar (at least
+one, fewer than 2^63 targets) and the `-header`/`-body` defaults in `cfg`, there is one list `ts`
+of targets matching the document's descriptions such that with `-lazy` the attacker's draws are
+`ts` in order and then `ErrNoTargets`, and without it draw number `j` is `ts[j mod |ts|]`. -/
+theorem attack_http_selection (cfgJ : JSONTargets.Cfg) (cfg : Cfg) (h0 : Heap) (d : Doc)
+    (hl : d.Legal cfg.validURI cfg.fs) (wf : WfDefaults cfg h0) (hne : d.blocks ≠ []) (hlen : d.blocks.length ≤ two63) :
+    ∃ ts hEnd, ListRel (fun t b => Matches hEnd t (describe (defaultsOf cfg h0) cfg.body cfg.fs b)) ts d.blocks ∧
+      (∃ p, attackTargeter fmtHTTP true cfgJ cfg (render d) h0 = .ok (.http p) ∧
+        draws (call cfg) (ts.length + 1) p = ts.map Outcome.ok ++ [.error eNoTargets]) ∧
+      (∃ p, attackTargeter fmtHTTP false cfgJ cfg (render d) h0 = .ok (.http p) ∧
+        ∀ m, m ≤ two63 → draws (call cfg) m p = (List.range' 0 m).map (rot ts)) := by
+  let st0 : St := { ps := PS.init (render d), heap := h0 }
+  obtain ⟨rs, hEnd, h1, h2⟩ := http_parse_render cfg h0 d 1 hl wf
+  have hstab := earlier_targets_stable cfg st0 (d.blocks.length + 1)
+  have hrl := aux_listRel_len h2
+  obtain ⟨ts, hts, hm⟩ := aux_listRel_final (hF := (callsH cfg (d.blocks.length + 1) st0).2.heap) h2 (by
+    intro r hr t ht k
+    exact hstab r (by rw [h1]; simp [hr]) t ht k)
+  have hlen' : ts.length = d.blocks.length := by
+    have := congrArg List.length hts; simp at this; omega
+  have hcalls := (callsH_calls cfg (d.blocks.length + 1) st0).1
+  rw [h1, List.map_append, hts, ← hlen'] at hcalls
+  have hr := aux_runsTo_of_calls' cfg ts st0 eNoTargets (by simpa using hcalls)
+  have hne' : ts ≠ [] := by
+    intro h0'; rw [h0'] at hlen'; exact hne (List.length_eq_zero_iff.mp (by simpa using hlen'.symm))
+  -- the fuel attack() gives ReadAllTargets suffices
+  obtain ⟨ts2, e2, st2, hr2, hb2⟩ := http_runsTo cfg _ st0 (Nat.le_refl _)
+  obtain ⟨e1, _, _⟩ := aux_runsTo_det (call cfg) _ _ _ _ hr _ _ _ hr2
+  have hfuel : ts.length < st0.ps.rest.length + 3 := by
+    have := eff_length_le st0.ps; rw [e1]; omega
+  obtain ⟨⟨p1, s1, d1⟩, ⟨p2, s2, d2, _⟩⟩ := attack_selection_same_targets (call cfg) _ st0 _ ts hr hne' hfuel (by omega)
+  refine ⟨ts, _, hm, ⟨p1, ?_, d1⟩, ⟨p2, ?_, d2⟩⟩
+  · simp only [attackTargeter, fmtHTTP, fmtJSON]
+    rw [if_neg (by decide)]
+    simp only [↓reduceIte]
+    simp only [st0] at s1
+    rw [s1]
+  · simp only [attackTargeter, fmtHTTP, fmtJSON]
+    rw [if_neg (by decide)]
+    simp only [↓reduceIte]
+    simp only [st0] at s2
+    rw [s2]
+
+/-- a stream that ends in another error, or has no target: lazily the attacker gets the
+targets before the error and then the error; eagerly the attack aborts with that error -/
+theorem attack_selection_error {S T : Type} (step : S → Outcome T × S) (fuel : Nat) (s s' : S) (ts : List T) (e : Nat)
+    (hr : RunsTo step s ts e s') (hf : ts.length < fuel) (hbad : e ≠ eNoTargets ∨ ts = []) :
+    selectTargeter step fuel false s = .error e ∧
+    draws step (ts.length + 1) (.stream s) = ts.map Outcome.ok ++ [.error e] := by
+  refine ⟨?_, draws_stream step s ts e s' hr⟩
+  rw [select_eager step fuel s s' ts e hr hf]
+  rcases hbad with h | h
+  · simp [h]
+  · by_cases he : e = eNoTargets
+    · simp [he, h]
+    · simp [he]
+
+/-- an unknown `-format` is refused -/
+theorem attack_format_switch (format : Bytes) (lazy : Bool) (cfgJ : JSONTargets.Cfg) (cfg : Cfg) (src : Bytes) (h : Heap)
+    (hj : format ≠ fmtJSON) (hh : format ≠ fmtHTTP) :
+    attackTargeter format lazy cfgJ cfg src h = .error eBadFormat := by
+  simp [attackTargeter, hj, hh]
+
+/-- the JSON format goes to the JSON targeter, with the same selection -/
+theorem attack_json_selection (cfgJ : JSONTargets.Cfg) (cfg : Cfg) (src : Bytes) (h : Heap) (lazy : Bool) :
+    ∃ ts e s', RunsTo (JSONTargets.call cfgJ) src ts e s' ∧ ts.length < src.length + 2 ∧
+      attackTargeter fmtJSON lazy cfgJ cfg src h =
+        match selectTargeter (JSONTargets.call cfgJ) (src.length + 2) lazy src with
+        | .ok p => .ok (.json p)
+        | .error e => .error e
+        | .panic => .panic := by
+  obtain ⟨ts, e, s', hr, hl⟩ := json_runsTo cfgJ _ src (Nat.le_refl _)
+  exact ⟨ts, e, s', hr, by omega, by
+    unfold attackTargeter; rw [if_pos rfl]
+    cases selectTargeter (JSONTargets.call cfgJ) (src.length + 2) lazy src <;> rfl⟩
+
 /-! ## the JSON format -/
 
 /-- **"the JSON format (one object per line)"**: on a file of newline-terminated lines the
@@ -489,5 +794,16 @@ theorem facts_merge_copies_default_slices :
 /-- between the first `Peek` and the return test there is the loop
 `for strings.HasPrefix(line, "#") { line = strings.TrimSpace(sc.Peek()) }` (fix c9e79da) -/
 theorem facts_peek_skips_comments : Vegeta.Extracted.c14_http_peek_skips_comments = true := by decide
+
+/-- attack.go hands `(src, body, hdr)` to whichever targeter the format selects, `hdr` is the
+`-header` flag's map (not the proxy headers), and the eager path is
+`if !opts.lazy { … ReadAllTargets(tr) … tr = NewStaticTargeter(targets...) }` — the shape
+`Model/AttackTargets.lean` models -/
+theorem facts_attack_target_selection :
+    Vegeta.Extracted.c14_attack_json_targeter_args = [[115, 114, 99], [98, 111, 100, 121], [104, 100, 114]] ∧
+    Vegeta.Extracted.c14_attack_http_targeter_args = [[115, 114, 99], [98, 111, 100, 121], [104, 100, 114]] ∧
+    Vegeta.Extracted.c14_attack_hdr_source =
+      [111, 112, 116, 115, 46, 104, 101, 97, 100, 101, 114, 115, 46, 72, 101, 97, 100, 101, 114] ∧
+    Vegeta.Extracted.c14_attack_eager_unless_lazy = true := by decide
 
 end Vegeta.Props.C14
